@@ -18,7 +18,7 @@ Conventions
   (every reader tests `deleted` first), so it is not modelled.
 * The outer `cache` (an LRU of capacity 102400 keyed by state key) is modelled as an association list without capacity
   (assumption: fewer than 102400 distinct keys are cached; listed in checks/C06.json). `StateCache.Remove`, the hit/miss
-  counters, rounds and logging are not modelled.
+  counters, rounds and logging are not modelled. `StateCache.Remove` is `SC.remove`.
 * `evictions` counts the `evicted = true` results of all LRU `Add`s (Go ignores them); it is only read by theorems
   (`NoEviction`).
 -/
@@ -89,9 +89,18 @@ structure SC (K B V : Type) where
   maxDepth : Nat                          -- maxHisDepth = capacity of hashCache (2000)
   cache : List (K × LRU B (Entry V))      -- key ↦ per-block version map
   links : LRU B B                         -- hashCache: block ↦ previous block
-  evictions : Nat
+  evictions : Nat                         -- every LRU `Add` that evicted, and every effective `Remove(key)`
+  entryEv : Nat                           -- only the evictions inside per-key version maps
 
-def SC.new {K B V : Type} (capK maxDepth : Nat) : SC K B V := ⟨capK, maxDepth, [], LRU.empty maxDepth, 0⟩
+/-- `StateCache.Remove(key)`: drops the key's whole version map. Also the effect of an eviction from the outer key LRU
+    (capacity 100·1024), which is not modelled with its recency order: a `Remove` at an arbitrary point of a history
+    over-approximates every eviction policy of the outer cache. -/
+def SC.remove {K B V : Type} [DecidableEq K] (sc : SC K B V) (k : K) : SC K B V :=
+  match alookup sc.cache k with
+  | some _ => { sc with cache := aerase sc.cache k, evictions := sc.evictions + 1 }
+  | none => sc
+
+def SC.new {K B V : Type} (capK maxDepth : Nat) : SC K B V := ⟨capK, maxDepth, [], LRU.empty maxDepth, 0, 0⟩
 
 section Threads
 variable {K B V : Type} [DecidableEq K] [DecidableEq B]
@@ -125,7 +134,7 @@ def Reader.stepSC (sc : SC K B V) (r : Reader K B V) : SC K B V :=
     | none => sc
     | some m =>
       { sc with cache := aset sc.cache r.key (m.containsOrAdd r.blk e).1,
-                evictions := sc.evictions + (m.containsOrAdd r.blk e).2.toNat }
+                evictions := sc.evictions + (m.containsOrAdd r.blk e).2.toNat, entryEv := sc.entryEv + (m.containsOrAdd r.blk e).2.toNat }
   | .done _ => sc
 
 /-- program counter and locals after one reader step -/
@@ -196,11 +205,11 @@ def Committer.stepSC (sc : SC K B V) (c : Committer K B V) : SC K B V :=
   match c.pc with
   | .linkcheck => { sc with links := (sc.links.get c.hash).1 }
   | .keyAdd true ((_, e) :: _) =>                                    -- `lru.New(200)` then `bvs.Add` on the private map
-    { sc with evictions := sc.evictions + ((LRU.empty sc.capK : LRU B (Entry V)).add c.hash e).2.toNat }
+    { sc with evictions := sc.evictions + ((LRU.empty sc.capK : LRU B (Entry V)).add c.hash e).2.toNat, entryEv := sc.entryEv + ((LRU.empty sc.capK : LRU B (Entry V)).add c.hash e).2.toNat }
   | .keyAdd false ((k, e) :: _) =>
     match alookup sc.cache k with
     | some m => { sc with cache := aset sc.cache k (m.add c.hash e).1,
-                          evictions := sc.evictions + (m.add c.hash e).2.toNat }
+                          evictions := sc.evictions + (m.add c.hash e).2.toNat, entryEv := sc.entryEv + (m.add c.hash e).2.toNat }
     | none => sc                                                     -- unreachable
   | .keyPut (some m) ((k, _) :: _) => { sc with cache := aset sc.cache k m }
   | .publish => { sc with links := (sc.links.add c.hash c.prev).1,
@@ -300,6 +309,7 @@ inductive Op (H K B V : Type) where
   | bcommit (h : H)
   | qget (b : B) (k : K)
   | sget (k : K) (b : B)
+  | srem (k : K)
 
 inductive Out (V : Type) where
   | ok
@@ -377,6 +387,7 @@ def Sys.step (s : Sys H K B V) : Op H K B V → Sys H K B V × Out V
     | none => (s, .bad)
   | .qget b k => let (sc', r) := s.sc.get k b; ({ s with sc := sc' }, Out.ofOption r)
   | .sget k b => let (sc', r) := s.sc.get k b; ({ s with sc := sc' }, Out.ofOption r)
+  | .srem k => ({ s with sc := s.sc.remove k }, .ok)
 
 def Sys.run (s : Sys H K B V) : List (Op H K B V) → Sys H K B V × List (Out V)
   | [] => (s, [])
